@@ -55,7 +55,8 @@ let handle (toks : string list) : (string * string * string) option =
     (* a load from a cell the sandbox rewrites (to evil) before the nth read notification: the conversion reads the cell
        once: the outcome for v, or (code that consistently uses a later read) the outcome for evil; never a mixture *)
     let a = abi_of_string a and k = kind_of_string k and v = z_of_string v and evil = z_of_string evil in
-    (match to_app a k v, to_app a k evil, sbx_equiv a k with
+    (* (the model of the read: [conv_cell], the conversion of what the FIRST read returned, whatever later reads return) *)
+    (match (match sbx_equiv a k with Some s -> Some (conv_cell k s (fun i -> if i = O then v else evil)) | None -> None), to_app a k evil, sbx_equiv a k with
      | Some r, Some r2, Some s ->
        Some (string_of_res string_of_z r ^ " ||| " ^ string_of_res string_of_z r2,
              string_of_res string_of_z (conv_spec k v) ^ " ||| " ^ string_of_res string_of_z (conv_spec k evil),
